@@ -49,12 +49,12 @@ def kids : Tree → List Tree | node _ ks => ks
 def abnormalKids (t : Tree) : List Tree := t.kids.takeWhile (fun k => !k.value.isNormal)
 /-- `normal_children` (`skip_while !is_normal`). -/
 def normalKids (t : Tree) : List Tree := t.kids.dropWhile (fun k => !k.value.isNormal)
-/-- NodeMap over namespaces: `all_children.skip_while(≠ns).take_while(=ns)`; for namespaces the
-    skip is empty in a well-ordered node. (nodemap/core.rs `children`) -/
-def categoryKids (c : Category) (t : Tree) : List Tree :=
-  (t.kids.dropWhile (fun k => k.value.category != c)).takeWhile (fun k => k.value.category == c)
+/-- `NamespaceAdapter::children`: `all_children.take_while(category = Namespace)`. -/
+def namespaceNodes (t : Tree) : List Tree :=
+  t.kids.takeWhile (fun k => k.value.category == .namespace)
 
-/-- `attribute_nodes`: skip namespaces, take attributes. -/
+/-- `AttributeAdapter::children` / `attribute_nodes`:
+    `all_children.skip_while(= Namespace).take_while(= Attribute)`. -/
 def attributeNodes (t : Tree) : List Tree :=
   (t.kids.dropWhile (fun k => k.value.category == .namespace)).takeWhile (fun k => k.value.category == .attribute)
 
